@@ -677,7 +677,11 @@ def check_flip(ctx: Ctx) -> None:
     f = ctx.index.method(FD, "FirstOrderFD", "_generate_perturbations")
     con = cname(FD, "FirstOrderFD", "_generate_perturbations")
     cfg = cfg_of(f)
-    wh = [s for s in stmts_of(f) if isinstance(s, ast.Assign) and isinstance(s.value, ast.Call) and last_attr(s.value) == "where" and len(s.value.args) == 3]
+    # the flip is the where(...) that chooses between +step and -step (other where(...) calls, e.g. on the bounds, are not it)
+    def is_flip(s):
+        return isinstance(s, ast.Assign) and isinstance(s.value, ast.Call) and last_attr(s.value) == "where" and len(s.value.args) == 3 and _signed_step(s.value.args[1]) in (1, -1) and _signed_step(s.value.args[2]) in (1, -1)
+
+    wh = [s for s in stmts_of(f) if is_flip(s)]
     ctx.need(len(wh) == 1, "FirstOrderFD._generate_perturbations: where(...) flip not found")
     c, a, b = wh[0].value.args
     ok = _exceeds(f, c, "upper_bounds", +1) is True and _signed_step(a) == -1 and _signed_step(b) == 1
@@ -698,7 +702,7 @@ def check_flip(ctx: Ctx) -> None:
     for fact in (True, False):
         g = specialise(f, {"self._normalize": fact})
         sv = SymValues(g)
-        wg = [s_ for s_ in stmts_of(g) if isinstance(s_, ast.Assign) and isinstance(s_.value, ast.Call) and last_attr(s_.value) == "where" and len(s_.value.args) == 3 and sv.cfg.has(s_)]
+        wg = [s_ for s_ in stmts_of(g) if is_flip(s_) and sv.cfg.has(s_)]
         if len(wg) != 1:
             ok = False
             continue
